@@ -7,6 +7,7 @@ CONSTANTS
   WCounts = {17, 200, 5000}
   SOffs = {0}
   VBufs = {"full"}
+  MFmts <- MC_None
   VSizes = {16}
   Extra = {"flush"}
   Naive = FALSE
